@@ -264,6 +264,33 @@ func scParams(k kindT) func(x *vs.Exec) {
 		if d := w.Dump(); d != before {
 			vs.Fail("refused joins changed the server state:\n%s--- before:\n%s", d, before)
 		}
+		if k.name == "tcpmux" || k.name == "http" {
+			// a member announcing two names, the second of which is taken by an ungrouped proxy: the join fails
+			// part-way and must leave the group as it was
+			blk := &msg.NewProxy{ProxyName: "blk", ProxyType: k.name, CustomDomains: []string{"taken.example.com"}}
+			if k.name == "tcpmux" {
+				blk.Multiplexer = "httpconnect"
+			}
+			if r := b.NewProxy(blk); r == nil || r.Error != "" {
+				vs.Fail("setup: ungrouped proxy refused: %+v", r)
+			}
+			w.Quiesce()
+			before2 := w.Dump()
+			m := k.reg("multi", "k", 0)
+			m.CustomDomains = append(m.CustomDomains, "taken.example.com")
+			vs.SetInterest(true)
+			r4 := b.NewProxy(m)
+			vs.SetInterest(false)
+			w.Quiesce()
+			if r4 == nil || r4.Error == "" {
+				vs.Fail("join announcing a name that another proxy holds was accepted: %+v", r4)
+			}
+			if d := w.Dump(); d != before2 {
+				vs.Fail("a join refused part-way changed the server state:\n%s--- before:\n%s", d, before2)
+			}
+			b.CloseProxy("blk")
+			w.Quiesce()
+		}
 		if who, e := k.probe(w, ra, "10.0.0.1:1111"); e != "" || who != "a/g1" {
 			vs.Fail("after refused joins the member no longer serves: who=%q err=%s", who, e)
 		}
